@@ -1,12 +1,12 @@
 SPECIFICATION Spec
 CONSTANTS
-  Alphabet = {10, 32, 35, 97}
-  MaxLen = 5
+  Alphabet = {32, 97, 128, 255}
+  MaxLen = 3
   MaxFrag = 3
   MaxDst = 0
   MaxDstFrag = 1
   MaxQ = 0
-  Ops = {"read", "argv", "arrmsg", "memtok"}
+  Ops = {"read", "length", "argv", "arrmsg", "memchr", "memfcn", "memstr", "memtok", "wide"}
 VIEW View
 INVARIANTS TypeOK Refines
 PROPERTIES DesignAgrees Normalised OnceAgrees
